@@ -339,6 +339,7 @@ struct Th<'a> {
     tx: Option<loom::sync::mpsc::Sender<usize>>,
     arcs: Vec<Vec<LArc>>,
     drop_guards: Vec<StoreOnDrop<'a>>,
+    polls: Option<AtomicUsize>,
 }
 
 /// "reset a flag on drop": stores to a loom atomic from a destructor, also while a failure unwinds
@@ -369,6 +370,7 @@ fn run_thread(t: usize, sh: StdArc<Shared>, o: StdArc<Objs>, owned: Vec<(usize, 
         tx: None,
         arcs: (0..na).map(|_| vec![]).collect(),
         drop_guards: vec![],
+        polls: None,
     };
     if sh.prog.uses_channel() {
         if sh.prog.rx_owner as usize == t {
@@ -440,8 +442,17 @@ impl<'a> Th<'a> {
                 fence(mo.std());
                 None
             }
+            LoopCounter => {
+                self.polls = Some(AtomicUsize::new(0));
+                None
+            }
             Await { a, v, o: mo, spin } => {
-                while self.atom(a).load(mo.std()) != v as usize {
+                while {
+                    if let Some(c) = &self.polls {
+                        c.fetch_add(1, StdOrd::Relaxed);
+                    }
+                    self.atom(a).load(mo.std()) != v as usize
+                } {
                     if spin {
                         loom::hint::spin_loop();
                     } else {
